@@ -23,7 +23,7 @@ func (g *Gen) Sched(focus ...string) simrt.SchedCfg {
 	case x < 0.08:
 		// a node that is slow all the time: dense yields and many short stalls, so that replies arrive
 		// while the code that asked for them is still between two statements
-		return simrt.SchedCfg{Density: 0.3 + g.Float()*0.7, Overlap: true, StallProb: 0.25, MaxStall: time.Duration(g.Range(300, 5000)) * time.Microsecond, MaxStalls: 60}
+		return simrt.SchedCfg{Density: 0.3 + g.Float()*0.7, Overlap: true, StallProb: 0.25, MaxStall: time.Duration(g.Range(300, 5000)) * time.Microsecond, MaxStalls: 60, Sticky: []float64{0, 0.8, 0.95}[g.Intn(3)]}
 	case x < 0.3:
 		return simrt.SchedCfg{}
 	case x < 0.6:
@@ -35,6 +35,9 @@ func (g *Gen) Sched(focus ...string) simrt.SchedCfg {
 	}
 	// slow node: goroutines stay parked at a yield while virtual time passes and further events
 	// arrive, so that handlers reacting to different events (and timers) really overlap
+	if g.Bool(0.5) {
+		c.Sticky = []float64{0.7, 0.9, 0.97}[g.Intn(3)]
+	}
 	if g.Bool(0.6) {
 		c.Overlap = true
 		c.StallProb = []float64{0.002, 0.01, 0.05}[g.Intn(3)]
